@@ -301,12 +301,13 @@ impl<S: Send + 'static> NodeListener<S> {
 
         // Dispatch the catched events first.
         while let Some(event) = cache.pop_front() {
-            let net_event = event.borrow();
-            log::trace!("Read from cache {:?}", net_event);
-            event_callback(NodeEvent::Network(net_event));
+            // The node could be already stopped, even before processing the first event.
             if !self.handler.is_running() {
                 return;
             }
+            let net_event = event.borrow();
+            log::trace!("Read from cache {:?}", net_event);
+            event_callback(NodeEvent::Network(net_event));
         }
 
         crossbeam_utils::thread::scope(|scope| {
@@ -415,10 +416,12 @@ impl<S: Send + 'static> NodeListener<S> {
                     let net_event = event.borrow();
                     log::trace!("Read from cache {:?}", net_event);
                     let mut event_callback = multiplexed.lock().expect(OTHER_THREAD_ERR);
-                    event_callback(NodeEvent::Network(net_event));
+                    // Checked with the callback locked: the node could be already stopped,
+                    // before this call or by a signal processed while waiting for the lock.
                     if !handler.is_running() {
                         return;
                     }
+                    event_callback(NodeEvent::Network(net_event));
                 }
 
                 while handler.is_running() {
